@@ -8,7 +8,7 @@ Property theorems only.  All statements are about the definitions the driver exe
 which run what tools/gen_Fold.py *regenerates from the current source* on every run: the pointwise programs of `fold` /
 `unfold` (`Gen.Fold.fold_outData`, `fold_outMask`, …), the statement lists of the two operator templates
 (`binaryProgram`, `inplaceProgram`, executed by the interpreter `Fold.runT`), the attribute rules of the numpy subclass
-hooks (`finalize_folded`, …), `misidCoef*`, `foldingRefused`, `cornerFlat`, `autofold_*`, the method lists.
+hooks (`finalize_folded`, …), `misidExpr` (evaluated by `Fold.evalM`), `foldingRefused`, `cornerFlat`, `autofold_*`, the method lists.
 
 Layout.  The helper lemmas of `Lemmas/FoldCore.lean` do not look into any generated definition; what they need to know about
 the translation enters as a hypothesis (`FoldDataOK`, `BinaryProgramOK`, …).  Those hypotheses are the *program theorems*
@@ -734,8 +734,9 @@ example : ∃ S : Spec, binop "__add__" S (.scalar 1) = .ok (binOut ⟨.add, fal
 
 /-! ## ancestral misidentification -/
 
-/-- `apply_anc_state_misid(fs, p)` — `A*fs + B*reverse_array(fs)` with the generated coefficients, evaluated with the
-    translated templates (`__rmul__` twice, then `__add__`) — is always defined and is the closed form `misidOut S p`: its data is
+/-- `apply_anc_state_misid(fs, p)` — the generated expression `misidExpr` (translated from the `return` statement:
+    `(1-p)*fs + p*reverse_array(fs)`), evaluated by `evalM` with Python's operator dispatch on the translated templates
+    (`__rmul__` twice, then `__add__`) — is always defined and is the closed form `misidOut S p`: its data is
     the convex mix `(1−p)·x + p·mirror x` on every entry, its mask the union of mask and mirrored mask; shape, folding flag
     and labels are those of the input; for every rational `p`. -/
 theorem C09_misid (S : Spec) (p : ℚ) :
@@ -750,24 +751,23 @@ theorem C09_misid (S : Spec) (p : ℚ) :
   have hl2 : "__add__" ∉ ndarrayLacks := by decide
   have hdef : ∀ (M : Method) (A : Spec) (o : Operand), (M.op = .add ∨ M.op = .mul) → arithDefined M A o = true :=
     fun M A o h => arithDefined_ring M A o (by rcases h with h | h <;> simp [h])
-  have hA : binop "__rmul__" S (.scalar (misidCoefSelf p)) = .ok (binOut ⟨.mul, true⟩ S (.scalar (misidCoefSelf p))) :=
+  have hA : ∀ c : ℚ, binop "__rmul__" S (.scalar c) = .ok (binOut ⟨.mul, true⟩ S (.scalar c)) := fun c =>
     (C09_binary_program _ _ _).trans
       (binopClosed_eq_ok hmem1 (by simp [foldingRefused, Operand.isSpectrum]) hl1 rfl rfl (hdef _ _ _ (Or.inr rfl)))
-  have hB : binop "__rmul__" (reverseSpec S) (.scalar (misidCoefMirror p))
-      = .ok (binOut ⟨.mul, true⟩ (reverseSpec S) (.scalar (misidCoefMirror p))) :=
+  have hB : ∀ c : ℚ, binop "__rmul__" (reverseSpec S) (.scalar c)
+      = .ok (binOut ⟨.mul, true⟩ (reverseSpec S) (.scalar c)) := fun c =>
     (C09_binary_program _ _ _).trans
       (binopClosed_eq_ok hmem1 (by simp [foldingRefused, Operand.isSpectrum]) hl1 rfl rfl (hdef _ _ _ (Or.inr rfl)))
-  have hC : binop "__add__" (binOut ⟨.mul, true⟩ S (.scalar (misidCoefSelf p)))
-        (.spectrum (binOut ⟨.mul, true⟩ (reverseSpec S) (.scalar (misidCoefMirror p))))
-      = .ok (binOut ⟨.add, false⟩ (binOut ⟨.mul, true⟩ S (.scalar (misidCoefSelf p)))
-          (.spectrum (binOut ⟨.mul, true⟩ (reverseSpec S) (.scalar (misidCoefMirror p))))) := by
+  have hC : ∀ c1 c2 : ℚ, binop "__add__" (binOut ⟨.mul, true⟩ S (.scalar c1))
+        (.spectrum (binOut ⟨.mul, true⟩ (reverseSpec S) (.scalar c2)))
+      = .ok (misidGen S c1 c2) := by
+    intro c1 c2
+    rw [← binOut_misid]
     refine (C09_binary_program _ _ _).trans (binopClosed_eq_ok hmem2 ?_ hl2 ?_ rfl (hdef _ _ _ (Or.inl rfl)))
     · simp [foldingRefused, Operand.folded, binOut, reverseSpec]
     · simp [Operand.fits, binOut, tabulate_size, reverseSpec_N, Spec.N, reverseSpec]
-  unfold applyMisid misidLeftMethod misidSumMethod
-  rw [hA, hB]
-  show binop "__add__" _ _ = _
-  rw [hC, binOut_misid]
+  -- the generated expression, evaluated: scalar * Spectrum reaches `__rmul__`, Spectrum + Spectrum reaches `__add__`
+  simp only [applyMisid, misidExpr, evalM, evalBin, MOp.method, MOp.reflected, MRes.ofRes, hA, hB, hC]
   rfl
 
 /-- Misidentification conserves the total; `p = 0` is the identity and `p = 1` the mirror image (on the data). -/
